@@ -308,6 +308,12 @@ func optimizerAbsorbedRemoved(c *Ctx, g *load.G) (bool, string) {
 				}
 			}
 		}
+		// a merge is applied where a class is built or extended (whatever flag records it)
+		for _, e := range p {
+			if e.Kind == "set" && (strings.Contains(e.Text, ".Chars=append(") || strings.Contains(e.Text, "=CharClassMatcher{") || strings.Contains(e.Text, "=&CharClassMatcher{")) {
+				flagSet = true
+			}
+		}
 		if flagSet {
 			nMerged++
 		}
@@ -554,6 +560,7 @@ func cleanupKeepsMembers(c *Ctx, g *load.G, cf *ast.FuncDecl) string {
 	var bad []string
 	nRebuild := 0
 	pairLoops := 0
+	installed := map[string]int{}
 	for _, fd := range withHelpers(ap, cf, "Walk", "cloneExpr") {
 		paths := c.astNorm().normPaths(fd)
 		rebuilds := false
@@ -695,7 +702,9 @@ func cleanupKeepsMembers(c *Ctx, g *load.G, cf *ast.FuncDecl) string {
 						bad = append(bad, "a member of "+field+" is kept without the not-seen-before test on the member itself")
 					}
 				}
-				_ = nApp
+				if nApp > 0 {
+					installed[field]++
+				}
 			}
 			// a member that was seen before is not kept, one that was not seen is
 			for _, field := range []string{"Chars", "UnicodeClasses"} {
@@ -721,6 +730,11 @@ func cleanupKeepsMembers(c *Ctx, g *load.G, cf *ast.FuncDecl) string {
 	}
 	if nRebuild == 0 {
 		bad = append(bad, "no function rebuilds the member lists")
+	}
+	for _, field := range []string{"Chars", "Ranges", "UnicodeClasses"} {
+		if nRebuild > 0 && installed[field] == 0 {
+			bad = append(bad, "no path installs a list of kept members for "+field+": every member of that list is dropped")
+		}
 	}
 	if pairLoops < 2 {
 		bad = append(bad, "the stride-2 loops over the range pairs (duplicate removal, text) were not found")
